@@ -16,6 +16,7 @@ Record hcase := {
   h_bindings : list (list hkey);
   h_actions : list haction;
   h_calls : list api_call;
+  h_init : list nat;            (* initial ordered active set (VerifSetActive), [] = fresh machine *)
   h_obs : trace;                (* what the implementation did *)
   h_extra : list (list tev);    (* event sequences seen by additional tracers *)
   h_interr : nat;               (* errors received on Machine.ErrInternal() *)
@@ -27,10 +28,14 @@ Record hcase := {
 Definition hist_fuel : nat := 5000.
 
 Definition model_trace (k : hcase) : trace :=
-  run hist_fuel
-      (init_st (h_schema k) (topo_sort (h_schema k) (h_sorted k)) (h_health k) (h_exc k)
-               (h_bindings k) (h_qlimit k) (h_actions k))
-      (h_calls k).
+  let s0 := init_st (h_schema k) (topo_sort (h_schema k) (h_sorted k)) (h_health k) (h_exc k)
+                    (h_bindings k) (h_qlimit k) (h_actions k) in
+  let s1 := match h_init k with
+            | [] => s0
+            | act => set_mach s0 (map (fun i => if mem i act then 1%N else 0%N)
+                                      (seq 0 (length (h_schema k)))) act
+            end in
+  run hist_fuel s1 (h_calls k).
 
 Fixpoint nlist_eqb (a b : list N) : bool :=
   match a, b with
